@@ -149,7 +149,7 @@ func propAccept(c AcceptCase) (o pbt.Outcome) {
 	now := time.Now()
 	key := refproto.KeyAt(hp, now.Unix())
 	keys := refproto.KeysAround(hp, now.Unix())
-	nonce := append([]byte(nil), c.Nonce...)
+	nonce := e2e.UniqueNonce(c.Nonce)
 	refproto.SetUserHint(u.Name, nonce)
 	minute := func() uint32 { return uint32(time.Now().Unix() / 60) }
 
@@ -340,6 +340,7 @@ func propAccept(c AcceptCase) (o pbt.Outcome) {
 			n := make([]byte, 24)
 			e2e.PRFFill(c.Salt^0x5a5a, int64(ncount)*24, n)
 			ncount++
+			n = e2e.UniqueNonce(n)
 			refproto.SetUserHint(u.Name, n)
 			return n
 		}
